@@ -132,10 +132,10 @@ def classify_fault(rc, err):
         return "ubsan:" + re.sub(r"0x[0-9a-f]+", "ADDR", m.group(1)).strip().replace(" ", "_")[:60]
     if "LeakSanitizer" in err:
         return "lsan:leak"
-    if rc is not None and rc < 0:
-        return "signal:%d" % (-rc)
     if rc == "timeout":
         return "timeout"
+    if isinstance(rc, int) and rc < 0:
+        return "signal:%d" % (-rc)
     return "exit:%s" % rc
 
 
